@@ -1,5 +1,6 @@
 import PPProofs.Lemmas.DiagramLinks
 import PPProofs.Lemmas.DiagramRoot
+import PPProofs.Lemmas.DiagramFilled
 import PPProofs.Props.C20
 /-!
 # C20 — the clauses links_resolve / root_first / no_empty_placeholder under decidable hypotheses
@@ -196,5 +197,56 @@ example : rootFirstHyp gFwdRoot opts0 0 = false ∧ rootFirstHyp gRootOnCycle op
     (toRailroad gFwdRoot opts0 10 0).map names = some [] ∧
     ∃ ds, toRailroad gRootOnCycle opts0 20 0 = some ds ∧ (names ds).head? = some (some "E") :=
   ⟨by decide +kernel, by decide +kernel, unnamed_forward_root_witness, root_not_first_witness⟩
+
+/-! ## no_empty_placeholder -/
+
+/-- **no_empty_placeholder_partial** (full clause: for ANY grammar no returned diagram contains a
+    `None` / `""` where an item should be, i.e. `noEmptyPlaceholder ds = true` - false, see
+    `empty_placeholder_witness`).  Proved, for ALL grammars in which every element draws something
+    (`drawsAll g o`: each element is shown or `show_hidden` is set, its children exist, `dispatch`
+    creates a partial for it - so no unnamed `Empty`, no empty And/Or/Each - and a one-item wrapper
+    (Opt, ZeroOrMore, OneOrMore, NotAny, FollowedBy, Group, ...) has at least one child), all options,
+    all roots in the table and every fuel at which the conversion returns: in the final converter
+    state EVERY EditablePartial has all its `item` / `items` slots filled with references - every
+    placeholder (`""`, `None`, the `items.insert(i, None)`) that the converter wrote has been replaced.
+    (Lemma `conv_HS`: every returning call of `_to_diagram_element` returns an item, never loses a
+    reference in an older partial, and leaves every partial it created filled.)
+    Missing for the full clause `noEmptyPlaceholder ds = true`:
+    (1) the `content` of a diagram entry is a *copy* of the `item` slot when the extracted partial is a
+        `Group` (:420-423); that it is a reference needs "extraction happens only after the element's
+        own conversion is complete" (an invariant relating the lookup table to the heap), not proved;
+    (2) `resolve` (the model of `resolve_partial`) runs on fuel `|heap|+1` and yields `rawNone` for a
+        dangling reference; that neither happens needs the acyclicity / in-bounds invariant of the
+        partial heap, not proved.
+    The hypothesis is sufficient, not necessary: an undrawn child of a many-item partial (And, Or, ...)
+    is simply removed (`del items[i]`) and would be harmless. -/
+theorem no_empty_placeholder_partial (g : Grammar) (o : Opts) (fuel root : Nat) (s : St)
+    (hd : drawsAll g o = true) (hroot : root < g.length)
+    (h : convertRoot g o fuel root = some s) : ∀ nd ∈ s.heap, nd.kw.filled = true :=
+  convertRoot_filled g o fuel root s hd hroot h
+
+/-- the same in terms of `to_railroad`: whenever it returns, it returns the resolution of a heap
+    without placeholders -/
+theorem no_empty_placeholder_partial' (g : Grammar) (o : Opts) (fuel root : Nat) (ds : List Named)
+    (hd : drawsAll g o = true) (hroot : root < g.length) (h : toRailroad g o fuel root = some ds) :
+    ∃ s, convertRoot g o fuel root = some s ∧ ds = sortByIndex ((selected s).map (entryTree s)) ∧
+      ∀ nd ∈ s.heap, nd.kw.filled = true := by
+  unfold toRailroad at h
+  split at h
+  · exact absurd h (by simp)
+  · rename_i s hs
+    simp only [Option.some.injEq] at h
+    exact ⟨s, hs, h.symm, convertRoot_filled g o fuel root s hd hroot hs⟩
+
+/-- non-vacuity: the named recursive grammar satisfies the hypothesis (and its output has no
+    placeholder, `named_cycle_ok`) -/
+example : drawsAll gNamed opts0 = true ∧ (convertRoot gNamed opts0 6 0).isSome = true :=
+  ⟨by decide +kernel, by decide +kernel⟩
+
+/-- the hypothesis is needed: the registered witness `Opt(Empty()) + Word("01")` violates it (the
+    unnamed `Empty` draws nothing), and its output keeps the `""` (`empty_placeholder_witness`) -/
+example : drawsAll gEmptyOpt opts0 = false ∧
+    ∃ ds, toRailroad gEmptyOpt opts0 10 0 = some ds ∧ noEmptyPlaceholder ds = false :=
+  ⟨by decide +kernel, empty_placeholder_witness⟩
 
 end PP.Diagram
